@@ -275,10 +275,18 @@ impl Repr {
             return Ok(());
         } else {
             // We need to create a new buffer because the current buffer is shared with others.
+            // The new buffer has exactly `new_capacity` bytes (the amortized growth of
+            // `HeapBuffer::with_additional` could make it larger than the current one).
             let str = heap.as_str();
-            let additional = new_capacity - str.len();
-            let new_heap = HeapBuffer::with_additional(str, additional)?;
-            Repr::from_heap(new_heap)
+            let mut new_repr = Repr::from_heap(HeapBuffer::with_capacity(new_capacity)?);
+            // SAFETY:
+            // - `new_repr` is a unique HeapBuffer we just created.
+            // - `str.len() <= new_capacity`, and `0..str.len()` is initialized before `set_len`.
+            unsafe {
+                new_repr.as_slice_mut()[..str.len()].copy_from_slice(str.as_bytes());
+                new_repr.set_len(str.len());
+            }
+            new_repr
         };
 
         self.replace_inner(new_repr);
